@@ -50,6 +50,8 @@ def instances(tier):
     out.append({"kind": "overfill", "eleventh": "predefined"})
     for g in (4, 5):
         out.append({"kind": "api_overfill", "gen": g})
+    out.append({"kind": "concurrent_failures", "n": 11})
+    out.append({"kind": "concurrent_failures", "n": 12})
     return out
 
 
@@ -75,6 +77,8 @@ def run(ctx, p):
         return _run_closed(ctx, p)
     if p["kind"] == "api_overfill":
         return _run_api_overfill(ctx, p)
+    if p["kind"] == "concurrent_failures":
+        return _run_concurrent_failures(ctx, p)
     return _run_overfill(ctx, p)
 
 
@@ -173,6 +177,56 @@ def sum_bools(bs):
         elif b:
             total = total + 1
     return total
+
+
+def _run_concurrent_failures(ctx, p):
+    """More than ten sends are in flight at once (every drain() is held up by back-pressure) when the link dies: each failed
+    write may be kept for a retry, but never more than ten messages are held for the down link - what comes out on the
+    next connection is at most ten distinct messages, each once."""
+    g = Gen(4)
+    S = socket_mod()
+    n = p["n"]
+    t_back = ctx.real("t_back", 3, 9)           # the console accepts again at a free instant
+    with Rig(ctx, g) as rig:
+        rig.net.on_connect = lambda net, k: ("accept", 0) if (k == 0 or _b(rig.loop.time() >= t_back)) else ("refuse",)
+        rig.net.on_drain = lambda conn, k: (1.0 if conn.index == 0 else None)
+        res = {}
+
+        def sender(i):
+            async def go():
+                try:
+                    await rig.sock.send(_msg(g, i % 4), S.RetryPolicy(max_retries=2, max_lifetime=60.0))
+                    res[i] = "ok"
+                except S.QueueOverflowError:
+                    res[i] = "overflow"
+                except Exception as e:  # noqa: BLE001
+                    res[i] = type(e).__name__
+            return go
+
+        rig.spawn(rig.sock.open_socket())
+        for i in range(n):
+            rig.loop.vt_call_at(0.5 + 0.01 * i, (lambda i=i: rig.spawn(sender(i)())))
+        rig.loop.vt_call_at(0.75, lambda: rig.net.conns[0].reset())
+        rig.loop.vt_run(t_back + 6.0)
+        later = [c for c in rig.net.conns[1:]]
+        frames = []
+        for c in later:
+            w = c.written()
+            frames += [bytes(w[j:j + 14]) for j in range(0, len(w), 14)]
+        pids = sorted(f[4] for f in frames)
+        ctx.observe("resent", len(frames))
+        held = len(set(pids))
+        ctx.check(held <= S.MAX_MESSAGE_QUEUE_SIZE, "overfill.eleventh_rejected",
+                  detail={"in_flight": n, "distinct_messages_sent_after_the_outage": held, "results": dict(res)})
+        ctx.check(len(pids) == len(set(pids)), "overfill.eleventh_rejected", detail={"why": "a held message went out twice", "packet_ids": pids})
+        ctx.check(not rig.task_failures(), "overfill.eleventh_rejected", detail=[str(e.get("exception")) for e in rig.task_failures()][:2])
+    for lab in expect_labels("quick"):
+        ctx.reach(lab)
+
+
+def _b(x):
+    from sx.values import SymBool
+    return bool(x) if isinstance(x, SymBool) else x
 
 
 def _run_api_overfill(ctx, p):
